@@ -15,6 +15,7 @@ ForceOff      == FALSE
 G_C17_OpenOnce      == dev = {} => C17_OpenOnce
 G_C17_OpensCreated  == dev = {} => C17_OpensCreated
 G_C17_Identity      == dev = {} => C17_Identity
+G_C17_CachedNotOpened == dev = {} => C17_CachedNotOpened
 G_C17_CacheSame     == dev = {} => C17_CacheSame
 G_C18_CleanRepos    == dev = {} => C18_CleanRepos
 G_C18_RepairedReload == dev = {} => C18_RepairedReload
